@@ -146,7 +146,7 @@ impl Scenario for Lifecycle {
         t.set_p("key_seed", rng.data_seed());
         let misuse = rng.chance(1, 2); // fault-free and fault-injecting configurations are separate
         let max_handles = rng.range(1, 3) as usize;
-        let nops = rng.range(2, if tier == Tier::Thorough { 40 } else { 20 });
+        let nops = if rng.chance(1, 300) { rng.range(300, 700) } else { rng.range(2, if tier == Tier::Thorough { 40 } else { 20 }) };
         let mut w = [12u32, 4, 0, 0, 0, 0, 0, 0];
         if misuse && rng.chance(1, 2) {
             w[K_RESULT_WRONG as usize] = 1;
